@@ -169,6 +169,9 @@ static const char *const T_C04[] = {
 	"slow; C0 | a0 U0 b0 R0 | a0 a0",
 	"C0 | a0 U0 b0 R0",
 	"slow; N0 | a0 U0 b0 R0 | a0",
+	// a sync reader queued as a waiter behind a running barrier, dequeued by the async drainer, with the next barrier right behind it
+	"slow; C0 | b0 s0 | b0",
+	"slow; C0 | b0 a0 s0 | b0",
 	0
 };
 QP_HARNESS(h_q04, "q04", "C04", T_C04, 0);
